@@ -820,16 +820,17 @@ package zygo
 // C18  package members are private unless capitalised
 // ===========================================================================
 // isPublic(name): the member name (dot prefix stripped) starts with an upper-case
-// letter.  errIfPrivate is the one place that decides it (assumed: a five-line
-// function over strings and runes, outside the integer/heap subset).
-//@ spec isPublic(name string) bool = ?
+// letter, i.e. its first RUNE is upper case (runeAt: the runes of a string are an
+// uninterpreted function of the string; unicode.IsUpper is the library's).
+// errIfPrivate is the one place that decides it.
+//@ macro isPublic(name string) bool = unicode.IsUpper(runeAt(name, 0))
 //@ spec stripDot(s string) string = ?
 //@ func stripAnyDotPrefix
 //@ assume pure
 //@ assume ensures r0 == stripDot(s)
 //@ func errIfPrivate
-//@ assume pure
-//@ assume ensures iff(r0 == nil, isPublic(stripDot(pathPart)))
+//@ C18 pure
+//@ C18 ensures decides-by-first-rune: iff(r0 == nil, isPublic(stripDot(pathPart)))
 
 // The package walker: an assignment happens only to a public member; a value
 // that is not itself a package is returned from the final hop only if public;
